@@ -88,7 +88,8 @@ def eval_cases(ck, rng, n):
         pspec = random_ptab(rng, spec, asp, int(spec["osp"][1]), det=kf)
         if asp[0] == "box":
             # the helpers do not clip: keep proposals inside the bounds
-            lo, hi = asp[2], asp[3]
+            lo = asp[2] if asp[2] is not None else float("-inf")      # None = unbounded on that side
+            hi = asp[3] if asp[3] is not None else float("inf")
             pspec["ACT"] = [[[min(max(a, lo), hi) for a in r] for r in m] for m in pspec["ACT"]]
         env = build_stack(TabEnv(spec), stack)
         policy = TabPolicy(pspec, env.action_space, env.observation_space)
@@ -206,7 +207,8 @@ def learn_hist_cases(ck, rng, n):
     cases, cj = [], []
     for i in range(n):
         kind = ["DQN", "SAC", "DQN", "PPO", "A2C"][i % 5]
-        spec = random_tab(rng, box_obs=False, box_action=(kind == "SAC"), trunc_rate=0.05, term_rate=0.25)
+        # the stock SAC policy squashes into the action box and (rightly, loudly) refuses boxes that are not bounded on both sides
+        spec = random_tab(rng, box_obs=False, box_action=(kind == "SAC"), trunc_rate=0.05, term_rate=0.25, half_bounded=False)
         stack, asp, osp = random_stack(rng, spec, depth=int(rng.integers(1, 3)), allow=["TimeLimit", "ClipReward", "TransformReward", "TimeLimit"])
         env = build_stack(TabEnv(spec), stack)
         N = int(rng.choice([1, 2, 4])); T = int(rng.integers(1, 5)); iters = int(rng.integers(2, 5))
